@@ -276,7 +276,7 @@ fn conv_job(conv: Conv, len: usize) -> Job {
 pub fn plan(tier: Tier) -> Plan {
   let len = match tier {
     Tier::Quick => 8,
-    Tier::Thorough => 10,
+    Tier::Thorough => 11,
   };
   let mut jobs = vec![];
   for c in [Conv::ToFuture, Conv::CollectToFuture, Conv::ToStream, Conv::Status] {
